@@ -13,13 +13,17 @@ def remove_open_circuit_elements(network: Network) -> Network:
     return Network([b for b in network.branches if not is_open_circuit(b.element)], node_zero_label=network.node_zero_label)
 
 def remove_short_circuit_elements(network: Network, keep: list[NortenTheveninElement] = []) -> Network:
+    def short_circuit_nodes(branches: list[Branch]) -> list[tuple[str, str]]:
+        short_circuits = [b for b in branches if is_short_circuit(b.element) and b.element not in keep]
+        return [(vs.node1, vs.node2) if not network.is_zero_node(vs.node1) else (vs.node2, vs.node1) for vs in short_circuits]
     branches = network.branches
-    short_circuits = [b for b in network.branches if is_short_circuit(b.element) and b.element not in keep]
-    short_circuit_nodes = [(vs.node1, vs.node2) if not network.is_zero_node(vs.node1) else (vs.node2, vs.node1) for vs in short_circuits]
-    for an, rn in short_circuit_nodes:
+    remaining_short_circuit_nodes = short_circuit_nodes(branches)
+    while len(remaining_short_circuit_nodes) > 0:
+        an, rn = remaining_short_circuit_nodes[0]
         branches = [Branch(rn, b.node2, b.element) if b.node1 == an else b for b in branches]
         branches = [Branch(b.node1, rn, b.element) if b.node2 == an else b for b in branches]
         branches = [b for b in branches if b.node1 != b.node2]
+        remaining_short_circuit_nodes = short_circuit_nodes(branches)
     return Network(branches, node_zero_label=network.node_zero_label)
 
 def short_circuitify_voltage_sources(network: Network, keep: list[NortenTheveninElement] = []) -> Network:
